@@ -73,14 +73,22 @@ class TracingBackend(object):
   def if_stmt(self, cond, body, orelse, get_state, set_state, symbol_names, nouts):
     self.counters['if_stmt'] += 1
     init = get_state()
-    body()
-    s1 = get_state()
-    set_state(init)
-    orelse()
-    s2 = get_state()
-    set_state(init)
+    taken = bool(cond)
+    states = {}
+    for is_body, branch in ((True, body), (False, orelse)):
+      try:
+        branch()
+        states[is_body] = get_state()
+      except NameError:
+        # The branch whose result is discarded runs from a state it cannot have in a real execution (e.g. the code
+        # guarded by `not continue_` after the branch that did not bind a variable): a read of an unbound variable
+        # there says nothing about the state tuple. In the branch that is kept it does.
+        if is_body == taken:
+          raise
+        self.counters['discarded_branch_read_unbound'] += 1
+      set_state(init)
     self.counters['branches_traced'] += 2
-    chosen = s1 if cond else s2
+    chosen = states[taken]
     final = list(chosen[:nouts])
     for i in range(nouts, len(chosen)):
       final.append(ops.Poison('%s is at position %d >= nouts=%d of %r' % (symbol_names[i], i, nouts, symbol_names)))
